@@ -74,3 +74,15 @@ Example C09_latest_of_three :
   resolve_current 738000%Z true pat [50;46;48;46;48] ScopeBranch tags = Some [49;46;49;48;46;48].
 Proof. vm_compute. repeat split; reflexivity. Qed.
 Print Assumptions C09_latest_of_three.
+
+(* ---- call orders extracted from the source by T1: the steps this property rests on ---- *)
+From Coq Require Import Strings.String.
+From BV Require Import Lib.StrLit Gen.Tables Proofs.OrderC09.
+Local Open Scope string_scope.
+
+(* in cli.update the tag scope given on the command line is merged before the current version is resolved from the tags, and the increment starts from the resolved version *)
+Theorem C09_repo_order_update :
+  restrict (lits ["_parse_vcs_options"; "_update_cfg_from_vcs"; "incr_dispatch"]) ORDER_CLI_UPDATE
+  = lits ["_parse_vcs_options"; "_update_cfg_from_vcs"; "incr_dispatch"].
+Proof. exact c09_order_update. Qed.
+Print Assumptions C09_repo_order_update.
